@@ -8,7 +8,7 @@ sys.path.insert(0, "tools")
 import common
 # regenerate every translated model first (gen/*.v must exist before make)
 import importlib
-for t in ("translate_semiring", "translate_machines", "translate_exprs", "translate_wfsa", "translate_cfg", "translate_tocfg", "translate_linear", "translate_fstops", "translate_cfgbytes"):
+for t in ("translate_semiring", "translate_machines", "translate_exprs", "translate_wfsa", "translate_cfg", "translate_tocfg", "translate_linear", "translate_fstops", "translate_cfgbytes", "translate_fromstring"):
     try:
         importlib.import_module(t).main()
     except Exception as e:
